@@ -565,6 +565,27 @@ func (e *SpecEnv) evalCall(x *ast.CallExpr) Term {
 	case "forall", "exists":
 		name := arg(0).(*ast.Ident).Name
 		lo, hi := e.eval(arg(1)), e.eval(arg(2))
+		if vc.unroll > 0 {
+			// counterexample-search mode: bounded ranges are expanded (exact for ranges of at most K elements;
+			// the size bound is recorded as an assumption of the search)
+			K := vc.unroll + 1
+			vc.boundAssume = append(vc.boundAssume, fmt.Sprintf("(<= (- %s %s) %d)", hi.S, lo.S, K))
+			var parts []string
+			for d := 0; d < K; d++ {
+				iv := fmt.Sprintf("(+ %s %d)", lo.S, d)
+				body := e.with(map[string]Term{name: intTerm(iv)}).evalBool(arg(3))
+				in := fmt.Sprintf("(< %s %s)", iv, hi.S)
+				if id.Name == "forall" {
+					parts = append(parts, imp(in, body))
+				} else {
+					parts = append(parts, and(in, body))
+				}
+			}
+			if id.Name == "forall" {
+				return boolTerm(and(parts...))
+			}
+			return boolTerm(or(parts...))
+		}
 		vc.bvN++
 		bv := fmt.Sprintf("%s!q%d", sanitize(name), vc.bvN)
 		body := e.with(map[string]Term{name: intTerm(bv)}).evalBool(arg(3))
@@ -679,6 +700,12 @@ func (e *SpecEnv) evalCall(x *ast.CallExpr) Term {
 		m := e.eval(arg(0))
 		mi := vc.mapInfo(m.T)
 		return boolTerm(vc.cardFacts(e.st, mi, m.S))
+	case "setadd":
+		a := e.eval(arg(0))
+		x := e.eval(arg(1))
+		r := a
+		r.S = store(a.S, x.S, "true")
+		return r
 	case "subsetcard":
 		// trusted finite-set fact for two maps with the same key type:
 		// dom(a) subset dom(b)  ==>  |a| <= |b|  and  (|a| = |b| ==> dom(b) subset dom(a))
